@@ -2503,11 +2503,9 @@ class x86_mn(x86_mn_base):
                             self.opmode = xmm
                             self.admode = xmm
                         elif m.name == 'movq':
+                            # 66 0F D6: movq xmm/m64, xmm
                             self.opmode = xmm
-                            if read_prefix == [] or read_prefix == [0x66]:
-                                self.admode = x86_afs.f64
-                            elif read_prefix == [0xF2] or read_prefix == [0xF3]:
-                                self.admode = xmm
+                            self.admode = xmm
                         elif '#q#' in m.name: # movntq/movntdq//
                             if read_prefix == []:
                                 self.opmode = mm
@@ -2589,6 +2587,9 @@ class x86_mn(x86_mn_base):
                             if read_prefix == [0xF3]:
                                 modr[x86_afs.size] = x86_afs.f64
                         elif   '#lps#' in m.name or '#hps#' in m.name:
+                            if read_prefix == [] or read_prefix == [0x66]:
+                                modr[x86_afs.size] = x86_afs.f64
+                        elif m.name == 'movq':
                             if read_prefix == [] or read_prefix == [0x66]:
                                 modr[x86_afs.size] = x86_afs.f64
                     mnemo_args.append(mafs)
